@@ -606,6 +606,10 @@ def handle (j : Json) : R Json := do
     match r with
     | some xs => return Json.arr (xs.map Json.str).toArray
     | none => return Json.null
+  | "kubectl_delegates" =>
+    match W.kubectlDelegates (← strList (j.getObjValD "tokens")) with
+    | some xs => return Json.arr (xs.map Json.str).toArray
+    | none => return Json.null
   | "stripquotes" => return Json.str (stripQuotes (← str j "s"))
   | "strip" => return Json.str (Py.strip (← str j "s"))
   | "fnmatch" => return Json.bool (Glob.fnmatch (← str j "name") (← str j "pat"))
